@@ -563,6 +563,17 @@ def execute(schedule, ctx):
         views = [view0()] + [{k_: r['view'][k_] for k_ in ['_'] + selected} for r in eas]
         tol = opts['tol']
 
+        narrow = spec.get('dtype') == 'float32'
+
+        def rounding_decides(k):
+            """The linker's own variables in single precision: does the step, taken in that precision, fall on the other
+            side of tol than the exact difference of the stored values? (Then neither reading is prescribed.)"""
+            if not narrow or k < 1 or k >= len(views):
+                return False
+            a, b = views[k - 1]['_'], views[k]['_']
+            with np.errstate(all='ignore'):
+                return any((abs(x - y) < tol) != bool(abs(np.float32(x) - np.float32(y)) < tol) for x, y in zip(b, a))
+
         def qualifies(k):
             a, b = views[k - 1], views[k]
             return all(abs(x - y) < tol for key in b for x, y in zip(b[key], a[key]))
@@ -575,7 +586,9 @@ def execute(schedule, ctx):
         # submodel outside the selection, say - has no say); judged when every recorded value is finite
         finite = all(np.isfinite(x) for v_ in views for key in v_ for x in v_[key])
         first_q = None
-        if finite and len(views) == K + 1:
+        if any(rounding_decides(k_) for k_ in range(1, len(views))):
+            ctx.probe('narrow-dtype-rounding-at-tol')
+        elif finite and len(views) == K + 1:
             for k_ in range(max(1, opts['min_iter']), K + 1):
                 if qualifies(k_):
                     first_q = k_
@@ -585,7 +598,7 @@ def execute(schedule, ctx):
                 chk('not-declared-solved-at-first-qualifying-iteration', st == '.' and K == first_q, {'first-qualifying': first_q, 'performed': K, 'status': st, 'tol': tol, 'selected': selected})
         if st == '.':
             chk('solved/iteration-bounds', max(1, opts['min_iter']) <= K <= opts['max_iter'], {'iterations': K, 'min_iter': opts['min_iter'], 'max_iter': opts['max_iter']})
-            ok = K >= 1 and len(views) > K and qualifies(K)
+            ok = K >= 1 and len(views) > K and (qualifies(K) or rounding_decides(K))
             moved = None
             if K >= 1 and len(views) > K:
                 moved = max([abs(x - y) for key in views[K] for x, y in zip(views[K][key], views[K - 1][key])] + [0.0])
